@@ -29,8 +29,10 @@ def jobs(prop, tier, only_fn=None):
             ("wcsicmp_s", 4, FOLD, ["-DVH_MEMSET_WORD"], ("libc_models.c", "wide_models.c"), 24, 16),
             ] + ([("wcsnatcmp_s", 5, FOLD, ["-DVH_MEMSET_WORD"], ("libc_models.c", "wide_models.c"), 24, 16)] if tier != "quick" else [])
     for name, (f, call, callv) in WIDE.items():
+        if name in ("snwprintf_s", "vsnwprintf_s"):
+            continue  # the truncating variants clear a symbolic range of the 520-element dest: no verdict within 12 GB (DESIGN C20)
         plan.append((name + ".probe", 6, [f, "src/str/safe_str_constraint.c", "src/ignore_handler_s.c", "src/str/strnlen_s.c", "src/wchar/wcsnlen_s.c"],
-                     ["-DWCALL=%s" % call, "-DVH_MEMSET_WORD"] + (["-DWCALLV=%s" % callv] if callv else ["-DWCALLV=0"]),
+                     ["-DWCALL=%s" % call, "-DVH_MEMSET_WORD", "-DVH_PRINTF_RET_SMALL"] + (["-DWCALLV=%s" % callv] if callv else ["-DWCALLV=0"]),
                      ("libc_models.c", "fmt_models.c"), 8, None))
     for (name, scen, files, defs, models, unw, obits) in plan:
         fn = name.split(".")[0]
@@ -40,7 +42,7 @@ def jobs(prop, tier, only_fn=None):
         if scen == 6:
             cm["memchecks"] = False  # 520-element clears under pointer checks exhaust memory; the vswprintf model asserts its buffer
         out.append(Job("%s.C20" % name, "C20", "h_alloc.c", files, defines=["-DSCEN=%d" % scen] + defs, repo_defines=WRAP, models=models,
-                       unwind_default=unw, unwind_rules=[(r"^safec_ntoa", 34), (r"^memset\.", 530 if scen == 6 else 30)], fn=fn, object_bits=obits,
+                       unwind_default=unw, unwind_rules=[(r"^safec_ntoa", 34), (r"^memset\.", 530 if scen == 6 else 30), (r"^(strcat|strlen)\.", 48)], fn=fn, object_bits=obits,
                        bounds={"scenario": name, "failing allocations": "any subset of the first 8 requests (symbolic mask)",
                                "inputs": "concrete wide strings (empty, ASCII, multibyte, unconvertible) / concrete operands"}, **cm))
     return out
